@@ -29,13 +29,15 @@
 (***************************************************************************)
 EXTENDS Integers, Sequences, FiniteSets, TLC, Json
 
-CONSTANTS MaxLen, GuardAllFields, BeginByKey
+CONSTANTS MaxLen, GuardAllFields, BeginByKey,
+          Shape    \* "all": every segment sequence up to MaxLen; "decoy": <harmless first segment, two or three "..", a name>
 
 \* segment classes: n = normal name, dd = "..", d = ".", e = "" (doubled separator),
 \* inner = name containing ".." ("a..b"), bs = "c\..\d" (backslash-separated traversal in one segment),
 \* tdd = "..." (three dots: a normal name), long = a name of more than 1024 bytes (over the rel_path limit; behaves
-\* like a normal name for Join / Clean - the guard must still reject the path for its ".." segments or its length)
-Seg == {"n", "dd", "d", "e", "inner", "bs", "tdd", "long"}
+\* like a normal name for Join / Clean - the guard must still reject the path for its ".." segments or its length),
+\* pdd = ".." padded with white space (" ..", ".. ", a tab in front): an ordinary name for Join / Clean and for the guards - as long as nobody trims it
+Seg == {"n", "dd", "d", "e", "inner", "bs", "tdd", "long", "pdd"}
 Fields == {"root", "dir", "file", "id", "offer", "begin"}
 
 VARIABLES field, segs, abs, noRoot, resume, phase
@@ -65,7 +67,7 @@ HasDotDotSegment(s) == \E i \in 1..Len(s) : s[i] \in {"dd", "bs"}
 TooLong(s) == \E i \in 1..Len(s) : s[i] = "long"
 ValidRel(s, isAbs) == ~HasDotDotSegment(s) /\ ~TooLong(s) /\ ~isAbs /\ s # <<>> /\ ~(Len(s) = 1 /\ s[1] = "e")
 \* an identifier / root name must be a single harmless name
-ValidName(s, isAbs) == ~isAbs /\ Len(s) = 1 /\ s[1] \in {"n", "inner", "tdd"}
+ValidName(s, isAbs) == ~isAbs /\ Len(s) = 1 /\ s[1] \in {"n", "inner", "tdd", "pdd"}
 
 Base(rootSegs) == IF noRoot THEN Out ELSE JoinClean(Out, rootSegs)
 Benign == <<"n">>
@@ -100,7 +102,9 @@ Confined == ~Escapes
 
 Init ==
   /\ field \in Fields
-  /\ segs \in UNION {[1..n -> Seg] : n \in 1..MaxLen}
+  /\ segs \in (IF Shape = "decoy"
+                THEN {<<f>> \o up \o <<"n">> : f \in {"n", "inner", "tdd", "pdd"}, up \in {<<"dd", "dd">>, <<"dd", "dd", "dd">>}}
+                ELSE UNION {[1..n -> Seg] : n \in 1..MaxLen})
   /\ abs \in BOOLEAN /\ noRoot \in BOOLEAN /\ resume \in BOOLEAN
   /\ phase = "new"
 Next == phase = "new" /\ phase' = "done" /\ UNCHANGED <<field, segs, abs, noRoot, resume>>
